@@ -670,3 +670,166 @@ pub fn gen_big_seg(rng: &mut Rng, scale: usize, template: u64) -> History {
     }
     History { coll: Coll::Seg, params: vec![lo, hi], ops, twin: None, inject: None }
 }
+
+// ---------------------------------------------------------------------------------------------
+// tall, thin trees: found by search against the implementation itself
+
+use crate::types::{MKey, SVal};
+use i_tree::set::sort::SetCollection;
+use i_tree::set::tree::SetTree;
+use i_tree::EMPTY_REF;
+
+/// (entries, height, longest successor / predecessor walk of a node with two children) of the set
+/// tree built by the given insertions (true) and removals (false)
+fn thin_metrics(ops: &[(bool, i32)]) -> (usize, usize, usize, i32) {
+    let mut t: SetTree<MKey, SVal> = SetTree::new(8);
+    for (ins, k) in ops {
+        if *ins {
+            t.insert(SVal { key: MKey(*k), payload: String::new() });
+        } else {
+            t.delete(&MKey(*k));
+        }
+    }
+    let (root, nodes, _, _) = t.verif_snapshot();
+    let mut n = 0usize;
+    let mut height = 0usize;
+    let mut walk = 0usize;
+    let mut walk_key = 0i32;
+    let mut stack: Vec<(u32, usize)> = vec![(root, 1)];
+    while let Some((i, d)) = stack.pop() {
+        if i == EMPTY_REF || i as usize >= nodes.len() || n > nodes.len() {
+            continue;
+        }
+        n += 1;
+        height = height.max(d);
+        let (_, l, r, _) = nodes[i as usize];
+        if l != EMPTY_REF && r != EMPTY_REF {
+            let mut c = r;
+            let mut steps = 1;
+            while (c as usize) < nodes.len() && nodes[c as usize].1 != EMPTY_REF && steps < 200 {
+                c = nodes[c as usize].1;
+                steps += 1;
+            }
+            if steps > walk {
+                walk = steps;
+                walk_key = t.verif_entity(i).key.0;
+            }
+            let mut c = l;
+            let mut steps = 1;
+            while (c as usize) < nodes.len() && nodes[c as usize].2 != EMPTY_REF && steps < 200 {
+                c = nodes[c as usize].2;
+                steps += 1;
+            }
+            if steps > walk {
+                walk = steps;
+                walk_key = t.verif_entity(i).key.0;
+            }
+        }
+        stack.push((l, d + 1));
+        stack.push((r, d + 1));
+    }
+    (n, height, walk, walk_key)
+}
+
+/// A red-black tree is at most 2*log2(n+1) high, and only trees thinned out by removals get near
+/// that bound for their size: insert a run of keys, then greedily remove the key whose removal keeps
+/// the tree highest (and its successor walks longest) for its size, evaluated on the implementation
+/// itself; then probe and remove every remaining entry.  Returns the history for the set tree; the
+/// caller derives the map / list variants.
+pub fn gen_thin(rng: &mut Rng, coll: Coll) -> History {
+    let n0 = *rng.pick(&[64usize, 100, 150, 220]);
+    let target = *rng.pick(&[12usize, 20, 30, 45]);
+    let mut seq: Vec<(bool, i32)> = Vec::new();
+    let keys: Vec<i32> = match rng.below(3) {
+        0 => (0..n0 as i32).collect(),
+        1 => (0..n0 as i32).rev().collect(),
+        _ => (0..n0 as i32).map(|i| if i % 2 == 0 { i / 2 } else { n0 as i32 - 1 - i / 2 }).collect(),
+    };
+    for k in &keys {
+        seq.push((true, *k));
+    }
+    let mut remaining: Vec<i32> = keys.clone();
+    // stop as soon as some node's successor / predecessor walk exceeds log2(n+1)+1 by two, or at
+    // the target size
+    let mut deep_key: Option<i32> = None;
+    while remaining.len() > target {
+        let mut best: Option<(usize, usize, usize, i32)> = None; // (score, index in remaining, walk, key)
+        let tries = remaining.len().min(48);
+        for _ in 0..tries {
+            let idx = rng.below(remaining.len() as u64) as usize;
+            seq.push((false, remaining[idx]));
+            let (_, h, w, wk) = thin_metrics(&seq);
+            seq.pop();
+            let score = w * 1000 + h * 10 + rng.below(10) as usize;
+            if best.map_or(true, |(s, _, _, _)| score > s) {
+                best = Some((score, idx, w, wk));
+            }
+        }
+        let (_, idx, w, wk) = best.unwrap();
+        seq.push((false, remaining.swap_remove(idx)));
+        let n = remaining.len();
+        let log = (usize::BITS - 1 - (n + 1).leading_zeros()) as usize;
+        if w > log + 2 {
+            deep_key = Some(wk);
+            break;
+        }
+        deep_key = Some(wk);
+    }
+    let mut ops: Vec<Op> = Vec::new();
+    let mut val: i64 = 1;
+    for (ins, k) in &seq {
+        if *ins {
+            ops.push(Op::M(MOp::Ins(*k, val)));
+            val += 1;
+        } else {
+            ops.push(Op::M(MOp::Del(*k)));
+        }
+    }
+    let is_set = coll == Coll::SetTree;
+    remaining.sort();
+    let probe_all = |ops: &mut Vec<Op>, rem: &Vec<i32>| {
+        for k in rem {
+            ops.push(Op::M(MOp::Get(*k)));
+            ops.push(Op::M(MOp::First(*k)));
+            if is_set {
+                ops.push(Op::M(MOp::After(*k)));
+                ops.push(Op::M(MOp::Before(*k)));
+            }
+        }
+        if is_set {
+            if let (Some(a), Some(b)) = (rem.first(), rem.last()) {
+                ops.push(Op::M(MOp::WalkF(*a)));
+                ops.push(Op::M(MOp::WalkB(*b)));
+            }
+        }
+    };
+    probe_all(&mut ops, &remaining);
+    // first the node whose successor (or predecessor) lies deepest below it
+    if let Some(dk) = deep_key {
+        if let Some(pos) = remaining.iter().position(|k| *k == dk) {
+            remaining.remove(pos);
+            ops.push(Op::M(MOp::Del(dk)));
+            probe_all(&mut ops, &remaining);
+        }
+    }
+    // then the other entries one by one, from the middle outwards
+    while !remaining.is_empty() {
+        if remaining.len() > 60 {
+            // (an early stop can leave a larger tree: thin it without probing everything each time)
+            let idx = rng.below(remaining.len() as u64) as usize;
+            let k = remaining.remove(idx);
+            ops.push(Op::M(MOp::Del(k)));
+            ops.push(Op::M(MOp::Get(k)));
+            continue;
+        }
+        let idx = match rng.below(3) {
+            0 => remaining.len() / 2,
+            1 => rng.below(remaining.len() as u64) as usize,
+            _ => remaining.len() / 3,
+        };
+        let k = remaining.remove(idx);
+        ops.push(Op::M(if rng.chance(70) { MOp::Del(k) } else { MOp::DelIdx(k) }));
+        probe_all(&mut ops, &remaining);
+    }
+    History { coll, params: vec![8], ops, twin: None, inject: None }
+}
